@@ -10,8 +10,11 @@ CALLS = {"quick": 600, "thorough": 4000}
 
 
 def same(a, b, tol=1e-9):
-    if isinstance(a, float) and isinstance(b, float) and math.isnan(a) and math.isnan(b):
-        return True
+    try:
+        if math.isnan(float(a)) and math.isnan(float(b)):
+            return True
+    except (TypeError, ValueError):
+        pass
     try:
         return a == b or abs(a - b) <= tol * max(1.0, abs(a), abs(b))
     except TypeError:
@@ -98,10 +101,15 @@ def main(run):
                 expl = cls_e(model, m, ["a", "b"], smoothing_alpha=0.1, n_inner_samples=2)
             except Exception as ex:
                 run.other_error(f"C15:{type(ex).__name__}")
-        ncalls = CALLS[run.tier]
+        ncalls = CALLS[run.tier] if idx % 6 != 2 else max(CALLS[run.tier], 2300)      # some histories beyond 1024 / 2048 calls
         ok = True
         for i in range(ncalls):
             yt, yp = gen_pair(rnd, kind, dict_input, requires_labels, labelset)
+            if rnd.random() < 0.15:        # targets taken from NumPy arrays: integer counts, booleans, float32 measurements
+                if kind == "reg" and isinstance(yt, float) and math.isfinite(yt) and abs(yt) < 1e6:
+                    yt = rnd.choice([np.int64(int(yt) + 1), np.float32(yt), np.float64(yt), np.int32(int(yt) + 2)])
+                elif kind == "bin" and isinstance(yt, bool):
+                    yt = np.bool_(yt)
             w = rnd.choice(wrappers)
             if rnd.random() < 0.03:
                 # error path: a call the metric cannot digest (prediction None / unhashable label); the caller catches whatever
